@@ -79,6 +79,15 @@ Theorem C01_define_undef :
 Proof. exact instance_attribution. Qed.
 Print Assumptions C01_define_undef.
 
+(* in the concrete instance a macro may be defined as another identifier (#define A B): the
+   value of an identifier in #if follows the alias chain in the CURRENT table, a name already
+   being expanded is not expanded again, and for EVERY macro table (cycles included) the
+   evaluation never runs out of fuel *)
+Theorem C01_alias_chain_total :
+  forall (m : string) (e : env), ident_val m e <> Err "OutOfFuel: alias chain".
+Proof. exact ident_val_never_out_of_fuel. Qed.
+Print Assumptions C01_alias_chain_total.
+
 (* non-vacuity: a nested chain whose #elif is selected, with a define that is
    reached and one that is not *)
 Definition C01_example : list (item act cond) :=
